@@ -661,7 +661,9 @@ def check_property(prop, jobs, tier, meta):
             unknown = []
             for f in r["failed"]:
                 key = obligation_key(f)
-                hit = [k for k in known if k["job"] == j.name and (k["obligation"] == key or k["obligation"] == f["property"])]
+                import fnmatch
+                hit = [k for k in known if k["job"] == j.name and (k["obligation"] == key or k["obligation"] == f["property"]
+                                                                  or ("*" in k["obligation"] and fnmatch.fnmatchcase(key, k["obligation"])))]
                 if hit:
                     known_hits.append((j, f, hit[0]))
                 else:
